@@ -403,6 +403,56 @@ pub fn big_oracle(c: &BigCount) -> Verdict {
     }
 }
 
+// ---- very many sequences in flight at once ---------------------------------------------------------------------------------
+
+#[derive(Clone, Debug, Serialize, Deserialize)]
+pub struct ManySeq {
+    pub n: u32,
+    /// the continuation of every sequence arrives before its header
+    pub cont_first: bool,
+}
+
+/// `n` two-fragment messages are all begun before any of them is finished (a busy connection, or a peer that interleaves):
+/// every one of them completes when its second fragment arrives, and nothing is left behind
+pub fn many_seq_oracle(c: &ManySeq) -> Verdict {
+    let mut asm = FragmentAssembler::new();
+    let hdr = |i: u32| vec![(i % 251) as u8, 0xA1];
+    let cont = |i: u32| vec![0xB2, (i % 241) as u8, (i >> 8) as u8];
+    let seq = |i: u32| 1_000_000u64 + i as u64 * 3;
+    for i in 0..c.n {
+        let r = if c.cont_first { asm.add_fragment(seq(i), 1, cont(i)) } else { asm.start_fragment(seq(i), 2, None, hdr(i)) };
+        if r.is_some() {
+            vfail!("incomplete-sequence-returned", "sequence #{i} of {}: a message was returned after one of its two fragments", c.n);
+        }
+    }
+    let mut known = 0u32;
+    for i in 0..c.n {
+        let r = if c.cont_first { asm.start_fragment(seq(i), 2, None, hdr(i)) } else { asm.add_fragment(seq(i), 1, cont(i)) };
+        let want = [hdr(i), cont(i)].concat();
+        let asc = [cont(i), hdr(i)].concat();
+        match r {
+            Some(data) if data == want => {}
+            Some(data) if data == asc => known += 1,
+            Some(data) => vfail!("reassembled-data-wrong", "sequence #{i} of {} in flight: {:?}", c.n, data),
+            None => vfail!(
+                "sequence-lost-among-many",
+                "with {} sequences in flight ({} first), sequence #{i} got both its fragments and was never returned (pending_count = {})",
+                c.n,
+                if c.cont_first { "continuations" } else { "headers" },
+                asm.pending_count()
+            ),
+        }
+    }
+    if asm.pending_count() != 0 {
+        vfail!("completed-sequences-still-held", "{} sequences are still held after all {} completed", asm.pending_count(), c.n);
+    }
+    let info = CaseInfo::nt(fp(&(c.n, c.cont_first))).class("many-sequences-in-flight");
+    if known > 0 {
+        return Verdict::Known { signature: "reassembly-concatenates-ascending-fragment-id".into(), detail: format!("{known} of {} two-fragment messages returned in ascending-id order", c.n), info };
+    }
+    Verdict::Pass(info)
+}
+
 // ---- expiry: every fragment of a sequence, also one that arrives before the header, keeps the sequence alive -------------
 
 #[derive(Clone, Debug, Serialize, Deserialize)]
@@ -471,6 +521,8 @@ pub fn run(run: &mut Run) {
     run.prop("random-histories", random_case, run.tier.pick(20_000, 1_000_000), oracle);
     let bigs: Vec<BigCount> = run.tier.pick(vec![100_000, 100_001], vec![65_536, 100_000, 100_001, 250_000, 1_000_000]).into_iter().map(|n| BigCount { n }).collect();
     run.enumerate("many-fragments", bigs.into_iter(), big_oracle);
+    let many: Vec<ManySeq> = run.tier.pick(vec![60_000u32, 1_000], vec![60_000, 200_000, 1_000]).into_iter().flat_map(|n| [true, false].into_iter().map(move |cont_first| ManySeq { n, cont_first })).collect();
+    run.enumerate("many-sequences", many.into_iter(), many_seq_oracle);
     // expiry (real clock, measured premises): nine arrival patterns, in parallel
     let pats: Vec<ExpiryCase> = (0..3u8).flat_map(|n| [0u8, 2, 200].into_iter().map(move |h| ExpiryCase { n, header_at: if h == 200 { 3 + n } else { h } })).collect();
     let verdicts: Vec<(ExpiryCase, Verdict)> = std::thread::scope(|sc| {
@@ -489,5 +541,5 @@ pub fn run(run: &mut Run) {
 }
 
 pub fn replays() -> Vec<ReplayEntry> {
-    vec![replay_entry("fuzz:c09", crate::fuzzbridge::eval_input), replay_entry("all-orders", oracle), replay_entry("random-histories", oracle), replay_entry("many-fragments", big_oracle), replay_entry("expiry-refresh", expiry_oracle)]
+    vec![replay_entry("fuzz:c09", crate::fuzzbridge::eval_input), replay_entry("all-orders", oracle), replay_entry("random-histories", oracle), replay_entry("many-fragments", big_oracle), replay_entry("many-sequences", many_seq_oracle), replay_entry("expiry-refresh", expiry_oracle)]
 }
